@@ -227,7 +227,7 @@ theorem rInstr_enc (strict : Bool) (i : Instr) (rest : Bytes) (h : instrOk T i =
     simp [rInstr, encInstr, hkey, hkinds, hp, rU_enc, hrev', hargs]
   | none =>
     simp only [Bool.and_eq_true, Bool.or_eq_true, beq_iff_eq, decide_eq_true_eq, Bool.not_eq_true', bne_iff_ne, ne_eq] at hrow
-    obtain ⟨⟨⟨⟨⟨hb256, hnfc⟩, hnfd⟩, hrev⟩, hsel⟩, hres⟩ := hrow
+    obtain ⟨⟨⟨⟨⟨⟨hb256, hnfc⟩, hnfd⟩, hrev⟩, hsel⟩, hres⟩, _⟩ := hrow
     have hrev' : T.reverz1Of b = some op := by
       split at hrev
       · rename_i id' hid; simp only [beq_iff_eq] at hrev; simp [Tables.reverz1Of, hb256, hid, hrev]
